@@ -236,7 +236,13 @@ def sentence(rng, f, spaces=0.0) -> bytes:
     return b"(" + sp() + hdr + b":=" + enc_value(rng, f[3]) + b")"
 
 
+KEYWORDISH = [b"dn", b"dnQualifier", b"dnSubtreeMatch", b"dnOneLevelMatch", b"DN", b"dnx", b"d", b"caseIgnoreMatch",
+              b"objectClass", b"x-dn", b"dn-1"]
+
+
 def g_descr(rng) -> bytes:
+    if rng.random() < 0.12:
+        return rng.choice(KEYWORDISH)
     n = rng.choice([1, 2, 5, 12])
     return bytes([rng.choice(ALPHA)]) + bytes(rng.choice(KEYCHAR) for _ in range(n - 1))
 
